@@ -118,19 +118,19 @@ theorem ifFold_inv {S : Pos} {acc : IfAcc} {p p' : Pos} {ev : Tree} (h : IfInv Z
             endTok := h.endTok }
   · -- `else` / `endif` / `end`
     obtain ⟨u1, u2, u3⟩ := updRange_ok h
-    have tOK : NodeOK Z (Tree.leaf t) := ⟨Pos.lt_le b, d⟩
+    have tOK : NodeOK Z (Tree.leaf t) := ⟨b.1, d⟩
     simp only [ifFold]
     split
     · exact { done := h.done, raw_ok := u2, raw_line := u3,
-              raw_pos := by rw [u1]; exact Pos.le_trans h.raw_pos (Pos.le_trans a (Pos.le_trans (Pos.lt_le b) c)),
+              raw_pos := by rw [u1]; exact Pos.le_trans h.raw_pos (Pos.le_trans a c.1),
               cond := fun c' hc' => by rw [u1]; exact h.cond c' hc',
               stmts := h.stmts, stmts_pos := fun s hs => by rw [u1]; exact h.stmts_pos s hs,
               endTok := fun e he => by
                 simp only [Option.some.injEq] at he
                 subst he
                 exact ⟨tOK, Pos.le_trans hS a⟩ }
-    · exact { done := NodeOKL.append h.done (NodeOKL.one (closeBlock_ok h)), raw_ok := Pos.lt_le b, raw_line := d,
-              raw_pos := Pos.le_trans (Pos.lt_le b) c,
+    · exact { done := NodeOKL.append h.done (NodeOKL.one (closeBlock_ok h)), raw_ok := b.1, raw_line := d,
+              raw_pos := c.1,
               cond := fun c' hc' => (by cases hc'),
               stmts := NodeOKL.nil, stmts_pos := fun s hs => (by cases hs),
               endTok := h.endTok }
@@ -139,14 +139,14 @@ theorem ifFold_inv {S : Pos} {acc : IfAcc} {p p' : Pos} {ev : Tree} (h : IfInv Z
     show IfInv Z S { acc with done := acc.done ++ [condBlock (updRange acc.curRaw acc.cond acc.stmts) acc.cond acc.stmts],
                               curTok := t.rng, curRaw := t.rng, cond := some cnd, stmts := [] } p'
     have fy := hy.facts
-    exact { done := NodeOKL.append h.done (NodeOKL.one (closeBlock_ok h)), raw_ok := Pos.lt_le b, raw_line := d,
+    exact { done := NodeOKL.append h.done (NodeOKL.one (closeBlock_ok h)), raw_ok := b.1, raw_line := d,
             raw_pos := by
               have := hy.le
-              exact Pos.le_trans (Pos.lt_le b) (Pos.le_trans c (Pos.le_trans this he)),
+              exact Pos.le_trans c.1 (Pos.le_trans this he),
             cond := fun c' hc' => by
               simp only [Option.some.injEq] at hc'
               subst hc'
-              exact ⟨hy.ok, Pos.le_trans (Pos.lt_le b) (Pos.le_trans c fy.1)⟩,
+              exact ⟨hy.ok, Pos.le_trans c.1 fy.1⟩,
             stmts := NodeOKL.nil, stmts_pos := fun s hs => (by cases hs),
             endTok := h.endTok }
   · -- no end token found
